@@ -109,6 +109,9 @@ func (f *impFn) assigned(nodes ...ast.Node) []string {
 				if exprText(s.Fun) == "copy" && len(s.Args) > 0 {
 					set[rootOf(s.Args[0])] = true
 				}
+				if exprText(s.Fun) == "io.ReadFull" && len(s.Args) == 2 {
+					set[rootOf(s.Args[0])], set[rootOf(s.Args[1])] = true, true
+				}
 				if se, ok := s.Fun.(*ast.SelectorExpr); ok && (se.Sel.Name == "Write" || se.Sel.Name == "Reset") {
 					set[rootOf(se.X)] = true
 				}
@@ -342,6 +345,29 @@ func (f *impFn) simple(s ast.Stmt, prev ast.Stmt, c *ictx) []string {
 				}
 				ns := names(xt.elem, tyBool)
 				return []string{"let (" + ns[0] + ", " + ns[1] + ") := " + parenImp(xs) + ".lookup " + parenImp(ks)}
+			}
+			if call, ok := v.Rhs[0].(*ast.CallExpr); ok && exprText(call.Fun) == "io.ReadFull" && len(call.Args) == 2 && f.lookup("io") == nil {
+				// n, err := io.ReadFull(r, buf): buf must be the local created by make in the statement just before (nobody else holds it)
+				rid, ok1 := call.Args[0].(*ast.Ident)
+				bid, ok2 := call.Args[1].(*ast.Ident)
+				if !ok1 || !ok2 {
+					p.die(s, "io.ReadFull form (only variables)")
+				}
+				rt, bt := f.lookup(rid.Name), f.lookup(bid.Name)
+				if rt == nil || rt.k != "reader" || bt == nil || !bt.eq(tyBytes) {
+					p.die(s, "io.ReadFull(%v, %v)", rt, bt)
+				}
+				okPrev := false
+				if pa, ok := prev.(*ast.AssignStmt); ok && len(pa.Lhs) == 1 && len(pa.Rhs) == 1 && exprText(pa.Lhs[0]) == bid.Name {
+					if mk, ok := pa.Rhs[0].(*ast.CallExpr); ok && exprText(mk.Fun) == "make" {
+						okPrev = true
+					}
+				}
+				if !okPrev {
+					p.die(s, "io.ReadFull into a buffer that was not created by make in the statement just before (it could be aliased)")
+				}
+				ns := names(tyInt, tyErr)
+				return []string{"let (" + lname(rid.Name) + ", " + lname(bid.Name) + ", " + ns[0] + ", " + ns[1] + ") := readFull " + lname(rid.Name) + " " + lname(bid.Name)}
 			}
 			if call, ok := v.Rhs[0].(*ast.CallExpr); ok {
 				if x, m, ok := f.hashCall(call, c); ok && m == "Write" && len(call.Args) == 1 {
@@ -945,10 +971,12 @@ func (f *impFn) ifStmt(v *ast.IfStmt, rest []ast.Stmt, k *kont, c *ictx, ind str
 	if nfall == 0 && len(rest) > 0 {
 		p.die(rest[0], "unreachable statement")
 	}
-	if nfall == 2 {
+	if nfall == 2 && !c.inLoop {
 		f.restore(ss, sg)
 		K = f.mkCont(K, c)
 	}
+	// (inside a loop body a join point cannot be a helper def — it would have to call the loop: the continuation is translated
+	// once per falling branch instead)
 	th := branch(v.Body.List, posG, K, c, ind+"  ")
 	var el string
 	if v.Else == nil {
@@ -1310,10 +1338,15 @@ func (f *impFn) forStmt(v *ast.ForStmt, rest []ast.Stmt, k *kont, c *ictx, ind s
 		return post + name + hole + " fuel_ " + strings.Join(lnames(S), " ")
 	}
 	f.push()
+	nf0 := len(f.fuels)
 	body := f.seq(v.Body.List, nil, cc, "      ", nil, false)
 	f.restore(ss, sg)
 	roArgs := ""
 	var roParams []string
+	for _, fu := range f.fuels[nf0:] { // fuel of the calls made by the body
+		roArgs += " " + fu
+		roParams = append(roParams, "("+fu+" : Nat)")
+	}
 	for _, x := range ro {
 		if t := f.lookup(x); t.k == "waitgroup" {
 			continue
